@@ -1035,6 +1035,9 @@ def _elemwise_handle_where(*args, **kwargs):
     *args, where, out = args
     if hasattr(out, "copy"):
         out = out.copy()
+    if isinstance(out, np.generic):
+        # a block indexed down to a scalar: ufuncs only write into arrays
+        out = np.asarray(out)
     return function(*args, where=where, out=out, **kwargs)
 
 
